@@ -993,13 +993,15 @@ class ExprMixin:
                 raise EngineError(f"comprehension over {it!r}")
             it = it2
         if kind == "dict":
-            raise EngineError("dict comprehension over symbolic collection")
-        srcsort = it.elem.comps[0]
+            # only ever built for log messages in loky: an opaque object
+            self.abstractions.add("dict comprehension over a symbolic collection is an opaque object")
+            return [("val", st, VObj(fresh_const("dictcomp", ty.IntS)))]
+        srcsort = it.mem.sort().domain()
 
         def elem_at(xt, s):
             """evaluate elt and filters with target := xt in a scratch copy"""
             s2 = s.clone()
-            xv = unflatten(it.elem, (xt,))
+            xv = self._abs_item(it, xt, s2)
             was = self.spec
             self.spec = True
             try:
